@@ -23,28 +23,49 @@ import (
 // and Content-Length of a body that is not stored that way), and concurrent hits race on the
 // map.
 func c03Cache(c *core.Ctx) {
-	load := fnOpt(c, c03px, "MemoryCache", "Load")
-	if load == nil {
-		c.Errorf("R-C03-8: anchor: %s.(MemoryCache).Load not found", c03px)
-		return
-	}
+	// the cache entry type, by role: the named struct of the package with a header-typed field
+	// that a function taking the client's request returns a pointer to (the cache lookup)
 	var entry *types.Named
-	if fo, ok := load.Info.Defs[load.Node.(*ast.FuncDecl).Name].(*types.Func); ok {
-		if res := fo.Type().(*types.Signature).Results(); res.Len() == 1 {
-			t := res.At(0).Type()
-			if p, ok := t.(*types.Pointer); ok {
-				t = p.Elem()
+	var st *types.Struct
+	cands := map[*types.Named]bool{}
+	for _, g := range funcsByRole(c, c03px, func(g *flow.Func, fd *ast.FuncDecl) bool { return true }) {
+		fo, ok := g.Info.Defs[g.Node.(*ast.FuncDecl).Name].(*types.Func)
+		if !ok {
+			continue
+		}
+		sig := fo.Type().(*types.Signature)
+		takesReq := false
+		for i := 0; i < sig.Params().Len(); i++ {
+			if strings.HasSuffix(sig.Params().At(i).Type().String(), c03hp+".Request") {
+				takesReq = true
 			}
-			entry, _ = t.(*types.Named)
+		}
+		if !takesReq || sig.Results().Len() != 1 {
+			continue
+		}
+		p, ok := sig.Results().At(0).Type().(*types.Pointer)
+		if !ok {
+			continue
+		}
+		n, ok := p.Elem().(*types.Named)
+		if !ok || n.Obj().Pkg() == nil || n.Obj().Pkg().Path() != Mod+c03px {
+			continue
+		}
+		if s2, ok := n.Underlying().(*types.Struct); ok {
+			for i := 0; i < s2.NumFields(); i++ {
+				if c03isHeaderType(s2.Field(i).Type()) {
+					cands[n] = true
+				}
+			}
 		}
 	}
-	var st *types.Struct
-	if entry != nil {
-		st, _ = entry.Underlying().(*types.Struct)
-	}
-	if st == nil {
-		c.Errorf("R-C03-8: anchor: the cache lookup does not return a (pointer to a) named struct")
+	if len(cands) != 1 {
+		c.Errorf("R-C03-8: anchor: expected one cache entry type (struct with a header field returned by a lookup taking the request), found %d", len(cands))
 		return
+	}
+	for n := range cands {
+		entry = n
+		st = n.Underlying().(*types.Struct)
 	}
 	hdrFields := map[*types.Var]int{}
 	for i := 0; i < st.NumFields(); i++ {
